@@ -91,11 +91,11 @@ func check(args []string) int {
 		}
 		ids = []string{id}
 	}
-	findings, err := kit.LoadFindings(filepath.Join(*verif, "known_findings.jsonl"))
+	findings, err := kit.LoadFindings(filepath.Join(*verif, "known_findings.txt"))
 	if err != nil {
 		fmt.Printf("cannot read known findings: %v\n", err)
 		for _, id := range ids {
-			fmt.Printf("VIOLATION property=%s replay=known_findings.jsonl\n", id)
+			fmt.Printf("VIOLATION property=%s replay=known_findings.txt\n", id)
 		}
 		return 1
 	}
@@ -355,7 +355,7 @@ func manifest() int {
 		}},
 		"checks":         checks,
 		"not_applicable": na,
-		"notes":          "All checks are static analysis of /repo's current working tree (no gohbase code is executed). Known genuine defects are listed in known_findings.jsonl; fix: commits in /repo are recorded there as fixed. See DESIGN.md.",
+		"notes":          "All checks are static analysis of /repo's current working tree (no gohbase code is executed). Known genuine defects are listed in known_findings.txt; fix: commits in /repo are recorded there as fixed. See DESIGN.md.",
 	}
 	b, _ := json.MarshalIndent(man, "", " ")
 	os.Stdout.Write(append(b, '\n'))
